@@ -174,6 +174,8 @@ type world struct {
 	credAt  int        // index of the first request with valid credentials (0 = none yet); 1 when auth is off
 	deadAt  int        // index of the client message at which the handshake ended without a forwarding connection (0 = none)
 	endAt   int        // index of the first client message after which nothing may be forwarded (0 = none)
+	softAt  int        // index of the first follow-up that names the first request's origin in another spelling (0 = none):
+	// C16 lets the proxy forward it or end the connection; the model (like the code) ends it
 	flagged map[string]bool
 }
 
@@ -306,9 +308,14 @@ func (w *world) clientSend(a action) {
 			}
 		}
 	case w.endAt == 0:
+		// "a request for a different host": another destination (domain, address or port), judged on the rendered
+		// spellings by the harness's own reading (originOf), not by the model's table
 		first := w.sent[w.credAt-1]
-		if m.M == "BAD" || m.M == "CONNECT" || hostOf(m.H) != first.host {
+		switch {
+		case m.M == "BAD" || m.M == "CONNECT" || !sameOrigin(want.host, first.host):
 			w.endAt = i
+		case want.host != first.host && w.softAt == 0:
+			w.softAt = i
 		}
 	}
 	w.cw.ch <- b
@@ -353,7 +360,14 @@ func (w *world) originSend(a action) {
 		w.res.Break("behaviour %d step %d: %v", w.bi, w.si, err)
 		return
 	}
-	b, want := renderResp(w.rnd, m, len(w.osent)+1, a.Head)
+	reqHost := hostA
+	switch {
+	case a.For >= 1 && a.For <= len(w.sent) && w.sent[a.For-1].host != "":
+		reqHost = w.sent[a.For-1].host
+	case w.credAt >= 1 && w.credAt <= len(w.sent) && w.sent[w.credAt-1].host != "":
+		reqHost = w.sent[w.credAt-1].host
+	}
+	b, want := renderResp(w.rnd, m, len(w.osent)+1, a.Head, reqHost)
 	w.osent = append(w.osent, want)
 	if w.ow == nil {
 		return
@@ -611,6 +625,23 @@ func (w *world) observe(o *obs) {
 		return
 	}
 	// ---- against the model (quiescent on both sides)
+	// A follow-up that names the first request's origin in another spelling (letter case, default port written out,
+	// another form of the address): the model, like the code it was written from, ends the connection; C16 allows
+	// forwarding it to that same origin just as well.  If the proxy did, model and proxy part ways here: from now on
+	// the model's expectations about what is delivered and when the connection ends are notes, and only what C16
+	// states without the model (fields, order, credentials, nothing for another origin) is judged.
+	diverged := w.softAt != 0 && bytes.Contains(oraw, []byte(w.sent[w.softAt-1].marker))
+	if diverged {
+		w.drift(fmt.Sprintf("client message %d names the origin of %s as %s: the proxy forwarded it to that origin, the model ends the connection (C16 decides neither)",
+			w.softAt, w.sent[w.credAt-1].host, w.sent[w.softAt-1].host), "connection ended", "forwarded")
+	}
+	modelViolation := func(key, text string, exp, got any) {
+		if diverged {
+			w.drift(text, exp, got)
+			return
+		}
+		w.violation(key, text, exp, got)
+	}
 	// requests: the property demands that exactly the model's requests reach the origin
 	if len(reqs) < len(o.Orx) {
 		lost := o.Orx[len(reqs)]
@@ -618,7 +649,7 @@ func (w *world) observe(o *obs) {
 		if w.authOn && w.refusedBodyBefore(lost.I) {
 			key = "http.auth/unauthenticated-body-forwarded"
 		}
-		w.violation(key, fmt.Sprintf("client message %d (%v) never reached the origin (origin has %d requests, handshake error: %v)", lost.I, lost.Msg, len(reqs), w.hnd.err),
+		modelViolation(key, fmt.Sprintf("client message %d (%v) never reached the origin (origin has %d requests, handshake error: %v)", lost.I, lost.Msg, len(reqs), w.hnd.err),
 			len(o.Orx), len(reqs))
 	} else if len(reqs) > len(o.Orx) {
 		w.drift(fmt.Sprintf("the origin received %d requests, the model forwards %d", len(reqs), len(o.Orx)), len(o.Orx), len(reqs))
@@ -639,7 +670,7 @@ func (w *world) observe(o *obs) {
 		if len(fwd) > 0 && w.osent[len(fwd)-1].interim {
 			key = "http.forward/final-response-lost-after-interim"
 		}
-		w.violation(key, fmt.Sprintf("origin response %d (%v, answering client message %d) never reached the client: the client has %d forwarded responses, eof=%v",
+		modelViolation(key, fmt.Sprintf("origin response %d (%v, answering client message %d) never reached the client: the client has %d forwarded responses, eof=%v",
 			miss.J, miss.Msg, miss.Q, len(fwd), ceof), len(mfwd), len(fwd))
 	} else if len(fwd) > len(mfwd) {
 		// delivered although the model's connection had ended: only a violation if a close condition preceded
@@ -655,7 +686,7 @@ func (w *world) observe(o *obs) {
 	}
 	// end of the connection
 	redirectOnly := false // the model ended the exchange only because of a redirect to another host
-	if n := len(mfwd); n > 0 && mfwd[n-1].Msg.St == "302o" && !w.closeCondition(n) {
+	if n := len(mfwd); n > 0 && elsewhere[mfwd[n-1].Msg.St] && !w.closeCondition(n) {
 		redirectOnly = true
 	}
 	if w.cAborted {
@@ -665,7 +696,7 @@ func (w *world) observe(o *obs) {
 			// closing after a redirect to another host is the proxy's own choice, not a close indication
 			w.drift("the model closes after a redirect to another host, the proxy keeps the connection", true, false)
 		} else {
-			w.violation("http.forward/connection-not-ended", fmt.Sprintf("the proxy connection must have ended (model phase %s) but the client sees no EOF", o.Phase), true, false)
+			modelViolation("http.forward/connection-not-ended", fmt.Sprintf("the proxy connection must have ended (model phase %s) but the client sees no EOF", o.Phase), true, false)
 		}
 	} else if !o.Ceof && ceof {
 		w.drift("the proxy ended the client connection, the model keeps it open", false, true)
@@ -673,7 +704,7 @@ func (w *world) observe(o *obs) {
 	if o.Phase == "done" && !w.rw.closed.Load() && redirectOnly {
 		w.drift("the model finishes after a redirect to another host, the proxy keeps forwarding", "done", "open")
 	} else if o.Phase == "done" && !w.rw.closed.Load() {
-		w.violation("http.forward/not-terminated", "both forwarding goroutines must have ended but the proxy has not closed the client connection", "rw.Close()", "none")
+		modelViolation("http.forward/not-terminated", "both forwarding goroutines must have ended but the proxy has not closed the client connection", "rw.Close()", "none")
 	} else if o.Phase != "done" && w.proceeded && !w.connect && w.rw.closed.Load() {
 		w.drift("the proxy closed the client connection, the model has not finished (phase "+o.Phase+")", o.Phase, "closed")
 	}
